@@ -378,8 +378,9 @@ def main():
         "wall_s": round(wall, 2),
         "violations": len(new_violations) + (1 if broken and not new_violations else 0),
     }
-    os.makedirs(os.path.join(VERIF, "evidence"), exist_ok=True)
-    with open(os.path.join(VERIF, "evidence", f"{prop}.json"), "w") as f:
+    evdir = os.environ.get("VERIF_EVIDENCE_DIR") or os.path.join(VERIF, "evidence")  # (redirected when a seeded change is evaluated)
+    os.makedirs(evdir, exist_ok=True)
+    with open(os.path.join(evdir, f"{prop}.json"), "w") as f:
         json.dump(ev, f, indent=1, sort_keys=True, default=str)
 
     for k in known:
